@@ -51,6 +51,23 @@ def gen_cases(tier):
                         strings = strings[:1]
                     for s in strings:
                         cases.append({"kind": "list", "args": list(perm), "input": s})
+    # alternative spellings of the same decimals: exponent notation, bare leading/trailing dot, explicit plus sign,
+    # trailing zeros, trailing comma, tabs and newlines as whitespace, nested parentheses
+    ALT = {"0.05": ["5e-2", ".05", "+0.05", "0.050"], "0.1": ["1e-1", ".1", "1E-1", "0.10"], "0.25": [".25", "2.5e-1"],
+           "0.3": [".3", "3e-1", "+.3"], "0.7": [".7", "7E-1"], "1": ["1.", "1.0", "+1", "1e0", "10e-1"], "2.5": ["2.5e0", "25e-1"]}
+    for a, b in itertools.permutations(["0.05", "0.1", "0.25", "0.3", "0.7", "1", "2.5"], 2):
+        for sa in ALT[a][:2]:
+            for sb in ALT[b][-2:]:
+                cases.append({"kind": "list", "args": [a, b], "input": f"[{sa}, {sb}]"})
+                cases.append({"kind": "list", "args": [a, b], "input": f"({sa},{sb},)"})
+    for a in ALT:
+        for sa in ALT[a]:
+            cases.append({"kind": "list", "args": [a], "input": sa})
+            cases.append({"kind": "list", "args": [a], "input": f"[{sa},]"})
+            cases.append({"kind": "list", "args": [a, "3"], "input": f"[\t{sa} ,\n 3 ]"})
+            cases.append({"kind": "linspace", "args": [a, "3", "4"], "input": f"linspace({sa}, 3., 4)"})
+            cases.append({"kind": "range", "args": [a, "3"], "input": f"range({sa}, 3.0)"})
+    cases.append({"kind": "list", "args": ["0.1", "0.2"], "input": "((0.1, 0.2))"})
     for d in DEC:
         cases.append({"kind": "list", "args": [d], "input": d})
         cases.append({"kind": "list", "args": [d], "input": f" {d}"})
